@@ -196,6 +196,12 @@ impl Report {
                 v.replay = json!({"input": v.replay, "_case": {"phase": phase, "index": index}});
             }
         }
+        // a panic raised by the harness's own code (its location is a path inside this crate, the
+        // library's frames are named by symbol) says nothing about the property: inconclusive
+        if v.signature.contains("panic@src/") {
+            self.inconclusive(format!("harness error: {} — {}", v.signature, v.what));
+            return;
+        }
         if v.signature.contains("live-lock") && self.expensive.fetch_add(1, Ordering::Relaxed) + 1 >= 32 && !crate::pool::gave_up() {
             crate::pool::give_up();
             self.note("exploration stopped early: 32 scenarios ran into the step budget (live-lock); the verdict does not depend on the rest");
